@@ -536,7 +536,7 @@ class FilterHarness:
 
     def _prop(self, pva, gyro, accel, time_delta, error_model, gyro_model, accel_model):
         self.fuel.tick('loop')
-        self.log.append(('prop', time_delta, _key(pva), _key(gyro), _key(accel)))
+        self.log.append(('prop', time_delta, _key(pva), _key(gyro), _key(accel), gyro, accel))
         a = (_key(pva), _key(gyro), _key(accel), _key(time_delta))
         n = self._nstates()
         return Tok('Phi', *a, n=n), Tok('Qd', *a, n=n)
